@@ -349,11 +349,17 @@ class AwsHooks:
             flag = R
             (m,) = R.t.keys()
             nz = [("cmp", ">=", R, p), ("cmp", "<", R, p + n)]
+            tb = num._tracked(st, p)
+            if tb:
+                dv = dict(st.notes.get("derived", {}))
+                dv[m[0]] = set(tb)
+                st.notes["derived"] = dv
             ch = args[1]
             if ch is not None and ch.is_const():
                 # the byte found is the one searched for: it is not a byte already known to hold something else
                 for (a2, s2, v2) in st.notes.get("cells", []):
-                    if s2 == 1 and v2.is_const() and v2.cval() != ch.cval() and entails(st, a2 - p):
+                    lo2, hi2 = num.simple_bounds(st, v2)
+                    if s2 == 1 and lo2 is not None and lo2 == hi2 and lo2 != (ch.cval() & 0xFF) and entails(st, a2 - p):
                         if entails(st, p - a2):
                             nz.append(("cmp", ">=", R, a2 + 1))
                 st.notes["cells"] = list(st.notes.get("cells", [])) + [(R, 1, Poly.const(ch.cval() & 0xFF))]
